@@ -37,7 +37,7 @@ var c10race = newChk("C10", "contention",
 			ad = &v6Adapter{}
 		}
 		conn := netsim.New(4096)
-		if err := ad.start(conn, 80*time.Millisecond, 1, false); err != nil {
+		if err := ad.start(conn, 80*time.Millisecond, 1, 0); err != nil {
 			return obs.Failf("C10/harness", "client starts", "%v", err)
 		}
 		defer ad.close()
